@@ -120,7 +120,7 @@ class FormulaParser(Parser):
         elif p[2] == '^':
             p[0] = to_number(p[1])**to_number(p[3])
         elif p[2] == '%':
-            p[0] = to_number(p[1]) * 0.01
+            p[0] = to_number(p[1]) / 100  # correctly rounded (n * 0.01 is one ulp off for 7%, 14%, ...)
 
     def p_expression_string(self, p):
         """
